@@ -283,6 +283,8 @@ def _gen_tree(rng, depth, ctr, nreq, bias, root=True):
         p = 0.12 if bias != 'fail' else 0.22
         pre = rng.random() < 0.35
         return dict(k='w', mark=ctr[0], bs=bs, nw=rng.choice([1, 1, 2, 3]), pre=pre,
+                    # `num_stream_threads`: the worker runs `call` in threads of its own (Worker.stream)
+                    nst=rng.choice([0, 0, 0, 2, 3]),
                     pf=sorted(r for r in reqs if pre and rng.random() < p),
                     cf=sorted(r for r in reqs if rng.random() < p),
                     bp=sorted(r for r in reqs if bs > 0 and rng.random() < p * 0.7),
@@ -377,7 +379,8 @@ def tree_tokens(t):
     def lst(l):
         return ','.join(map(str, l)) if l else '-'
     if t['k'] == 'w':
-        return ['w', str(t['mark']), str(t['bs']), str(t['nw']), str(int(t['pre'])), lst(t['pf']), lst(t['cf']),
+        # the model's `nw` is "at most nw calls run at once": a worker with stream threads runs that many each
+        return ['w', str(t['mark']), str(t['bs']), str(t['nw'] * max(1, t.get('nst') or 0)), str(int(t['pre'])), lst(t['pf']), lst(t['cf']),
                 lst(t['bp'])]
     if t['k'] == 'e':
         out = ['e', str(int(t['ff'])), str(len(t['ch']))]
@@ -483,6 +486,11 @@ def run_case(case):
         pf = set(t['pf'])
 
         class W(Worker):
+            def __init__(self, **kw):
+                super().__init__(**kw)
+                if t.get('nst'):
+                    self.num_stream_threads = t['nst']
+
             def call(self, x):
                 xs = x if bs > 0 else [x]
                 rec = dict(mark=mark, path=path, args=[enc(v) for v in xs], reqs=[reqof(v) for v in xs], exc=None,
@@ -862,9 +870,11 @@ def run_case(case):
     for path, nd in nodes.items():
         if nd['kind'] == 'w':
             t = nd['t']
-            if st['max_running'].get(t['mark'], 0) > t['nw']:
+            lim = t['nw'] * max(1, t.get('nst') or 0)
+            if st['max_running'].get(t['mark'], 0) > lim:
                 mon.append(dict(prop='C02', rule='worker-concurrency',
-                                detail=f'worker {t["mark"]}: {st["max_running"][t["mark"]]} calls at once > {t["nw"]}'))
+                                detail=f'worker {t["mark"]}: {st["max_running"][t["mark"]]} calls at once > {lim} '
+                                       f'({t["nw"]} workers x {max(1, t.get("nst") or 0)} stream threads)'))
     # ---- per-node event streams (trace validation + C04 batch monitor) ------------------------------
     try:
         res['node_lines'], batch_hits = node_traces(nodes, box['wiring'], qlog)
@@ -911,10 +921,15 @@ def node_traces(nodes, w, qlog):
     seen_root = set()
     dup = []
 
+    path_of_mark = {nd['t']['mark']: p for p, nd in nodes.items() if nd['kind'] == 'w'}
+
     def producer(tname, ident):
         m = re.search(r'nd(R[0-9.]*)w-', tname)
         if m:
             return m.group(1)
+        m = re.match(r'W(\d+)\.stream', tname)       # helper threads of a worker with `num_stream_threads`
+        if m:
+            return path_of_mark.get(int(m.group(1)))
         return w['threads'].get(ident)
 
     for op, q, tname, ident, item in qlog:
